@@ -80,19 +80,6 @@ theorem zipWithM?_eq_of_map {α κ γ} (f : α → κ) (F : α → α → Option
 
 /-! ### alike glyphs -/
 
-/-- what interpolation leaves alone -/
-structure GShape where
-  name : String
-  contours : List CShape
-  comps : List (String × (Q × Q × Q × Q))
-  anchors : List String
-  deriving DecidableEq
-
-def ksh (k : Comp) : String × (Q × Q × Q × Q) := (k.base, k.t.linear)
-
-def sh (g : Glyph) : GShape :=
-  ⟨g.name, g.contours.map contourShape, g.comps.map ksh, g.anchors.map (fun a => a.name)⟩
-
 /-! ### the total interpolation of alike glyphs -/
 
 def mixPt (s : Q) (p q : Pt) : Pt := ⟨lerp p.x q.x s, lerp p.y q.y s, p.seg⟩
